@@ -5,6 +5,7 @@ CONSTANTS
   Dbs = {"d1", "d2"}
   Tbls = {"t1", "t2"}
   Privs = {"SELECT", "INSERT", "UPDATE", "DELETE", "CREATE", "DROP", "CREATE USER", "GRANT OPTION", "SUPER"}
+  DynPrivs = {"REPLICATION_SLAVE_ADMIN", "CLONE_ADMIN"}
   MaxSet = 2
   WithAll = TRUE
   MaxStep = 100
@@ -12,7 +13,7 @@ CONSTANTS
 INIT Init
 NEXT NextSimReload
 VIEW View
-INVARIANTS TypeOK NoOrphans HierarchyMonotone
+INVARIANTS TypeOK NoOrphans HierarchyMonotone DynGrantOptionIsGlobal
 PROPERTIES ReloadIdentity DropForgets
 ACTION_CONSTRAINT Emit
 CHECK_DEADLOCK FALSE
